@@ -102,8 +102,8 @@ func atOnceUnits(id string) []core.Unit {
 				c := conf()
 				vsched.SetNumCPU(2)
 				defer vsched.SetNumCPU(0)
-				vsched.FamilyAffinity, vsched.PostPoints = true, true
-				defer func() { vsched.FamilyAffinity, vsched.PostPoints = false, false }()
+				vsched.FamilyAffinity, vsched.PostPoints, vsched.GlobalPoints = true, true, true
+				defer func() { vsched.FamilyAffinity, vsched.PostPoints, vsched.GlobalPoints = false, false, false }()
 				var want string
 				if !guard(r, lower(id)+".panic", oa.name+" / "+ob.name, "executed alone", func() {
 					want = "[0]" + oa.f(c, ctx.Seed, 0) + "[1]" + ob.f(c, ctx.Seed, 1)
@@ -291,7 +291,7 @@ func fuChild(ctx *core.Ctx, r *core.Result) {
 		c = conf()
 	}
 	vsched.SetNumCPU(2)
-	vsched.FamilyAffinity, vsched.PostPoints = true, true
+	vsched.FamilyAffinity, vsched.PostPoints, vsched.GlobalPoints = true, true, true
 	body := func() string {
 		outs := make([]string, 2)
 		var wg vsched.WaitGroup
